@@ -244,6 +244,11 @@ def _parse_list_rule(rule):
         # Handle bare strings
         if isinstance(inner_rule, str):
             inner_rule = [inner_rule]
+        elif not isinstance(inner_rule, (list, tuple)):
+            # Not something we understand (a number, a mapping...); fail
+            # closed
+            LOG.error('Failed to understand rule %s', inner_rule)
+            inner_rule = ['!']
 
         # Parse the inner rules into Check objects
         and_list = [_parse_check(r) for r in inner_rule]
@@ -354,4 +359,9 @@ def parse_rule(rule):
     # If the rule is a string, it's in the policy language
     if isinstance(rule, str):
         return _parse_text_rule(rule)
-    return _parse_list_rule(rule)
+    if rule is None or isinstance(rule, (list, tuple)):
+        return _parse_list_rule(rule)
+
+    # Anything else (a boolean, a number, a mapping) is not a rule; fail closed
+    LOG.error('Failed to understand rule %s', rule)
+    return _checks.FalseCheck()
